@@ -153,7 +153,13 @@ def run(ctx):
             from prov.identifier import Namespace
             ns = Namespace(g.choice(["q", "am"]), g.choice(['http://h/?a=1&b="2"#', "http://h/<x>/", "http://h/back\\slash/"]))
             w.new_record(c, "Entity", QualifiedName(ns, g.choice(['x"y', "tail\\", "a<b", "ok", "é"])),
-                         [("prov:label", g.choice(['a<b & "c"', "plain", "</font>", "x\\"]))])
+                         [("prov:label", g.choice(['a<b & "c"', "plain", "</font>", "x\\"]))] +
+                         # hostile characters in the URIs that end up in href="..." of an annotation row: the attribute name's
+                         # namespace and an Identifier / QualifiedName value
+                         ([(QualifiedName(ns, "attr"), g.choice(["v", 'q"v']))] if g.chance(0.5) else []) +
+                         ([("prov:value", Identifier(g.choice(['http://h/res/x" bgcolor="red', "http://h/q?a=1&b=<2>", "http://h/plain"])))]
+                          if g.chance(0.5) else []) +
+                         ([("prov:location", QualifiedName(ns, g.choice(['l"oc', "loc"])))] if g.chance(0.3) else []))
         doc = w.conts[d]
         combos = [dict(show_nary=a, use_labels=b_, show_element_attributes=c_, show_relation_attributes=d_)
                   for a in (True, False) for b_ in (True, False) for c_ in (True, False) for d_ in (True, False)]
